@@ -7,7 +7,8 @@ CONSTANTS
   MaxLen = 4
   Record = FALSE
   Starts = {0, 1}
-  CtxChoices = {-1, 3, 9}
+  CtxChoices = {3, 9}
+  Rich = TRUE
   Sim = FALSE
 INIT MCInit
 NEXT MCNext
